@@ -87,9 +87,17 @@ def ints_of(v):
 
 
 class TokenTable(object):
-  """Collects tokens seen in a trace and the decode table handed to TLC."""
+  """
+  Collects tokens seen in a trace and the judgement-free decode tables handed to TLC:
+    ints[tok]  = the integers a token denotes                       ("#3" -> [3], 'L[..]' -> [..])
+    elems[tok] = the element tokens of a list token                  ('L["sa","sb"]' -> ["sa","sb"])
+    strs[tok]  = the raw text of an ASCII identifier-like string token ("sT1" -> "T1")
+  """
   def __init__(self):
     self.ints = {}
+    self.elems = {}
+    self.strs = {}
+    self.helpers = {}     # colId token -> "display" | "rule" (prefix classification of helper columns)
 
   def tok(self, v):
     t = token(v)
@@ -97,4 +105,20 @@ class TokenTable(object):
       i = ints_of(v)
       if i is not None:
         self.ints[t] = i
+    if isinstance(v, (list, tuple)) and len(v) > 0 and v[0] == 'L' and t not in self.elems:
+      self.elems[t] = [self.tok(x) for x in v[1:]]
+    if isinstance(v, str) and t not in self.strs and len(v) < 80 and v.isascii() and \
+        v.replace('_', '').replace('#', '').isalnum():
+      self.strs[t] = v
+    if isinstance(v, str) and v.startswith('gristHelper_') and t not in self.helpers:
+      if v.startswith('gristHelper_Display'):
+        self.helpers[t] = "display"
+      elif v.startswith('gristHelper_ConditionalRule') or v.startswith('gristHelper_RowConditionalRule'):
+        self.helpers[t] = "rule"
     return t
+
+  def update(self, other):
+    self.ints.update(other.ints)
+    self.elems.update(other.elems)
+    self.strs.update(other.strs)
+    self.helpers.update(other.helpers)
